@@ -91,9 +91,12 @@ pub fn parse_twice<'a>(
         p.assertion(a);
       }
       let r1 = p.parse(first.0, first.1).map(LayerOut::Json);
-      // re-configure the same parser (an absent footer/assertion is the empty one)
-      p.footer(second.2.unwrap_or(""));
-      if proto.has_assertion() {
+      // re-configure the same parser only where the expectation changes (an absent footer/assertion is the
+      // empty one); leaving the setters alone otherwise keeps whatever the parser remembers from the first parse
+      if second.2.unwrap_or("") != first.2.unwrap_or("") {
+        p.footer(second.2.unwrap_or(""));
+      }
+      if proto.has_assertion() && second.3.unwrap_or("") != first.3.unwrap_or("") {
         p.assertion(second.3.unwrap_or(""));
       }
       let r2 = p.parse(second.0, second.1).map(LayerOut::Json);
